@@ -50,7 +50,7 @@ def LineAlgo.intersect {α : Type} [Add α] [Sub α] [Mul α] [Div α] [Neg α] 
   let t176 := ((t173 * t169) - (t172 * t170))
   let t179 := ((t171 * t170) - (t173 * t168))
   let t182 := ((t172 * t168) - (t171 * t169))
-  let t183 := (V3.length tmin sqrt ⟨t182, t179, t176⟩)
+  let t183 := (V3.length tmin tmax sqrt ⟨t182, t179, t176⟩)
   let t184 := (t182 / t183)
   let t185 := (t179 / t183)
   let t186 := (t176 / t183)
@@ -61,7 +61,7 @@ def LineAlgo.intersect {α : Type} [Add α] [Sub α] [Mul α] [Div α] [Neg α] 
   let t205 := (l.pos.z + (l.dir.z * t201))
   let t206 := (l.pos.y + (l.dir.y * t201))
   let t207 := (l.pos.x + (l.dir.x * t201))
-  let t208 := (V3.length tmin sqrt ⟨t170, t169, t168⟩)
+  let t208 := (V3.length tmin tmax sqrt ⟨t170, t169, t168⟩)
   let t209 := (t205 - v0.z)
   let t210 := (t206 - v0.y)
   let t211 := (t207 - v0.x)
@@ -76,7 +76,7 @@ def LineAlgo.intersect {α : Type} [Add α] [Sub α] [Mul α] [Div α] [Neg α] 
   let t237 := ((((t211 - t220) * t232) + ((t210 - t220) * t231)) + ((t209 - t220) * t230))
   let t242 := (((t232 * t232) + (t231 * t231)) + (t230 * t230))
   let t243 := (t237 / t242)
-  let t244 := (V3.length tmin sqrt ⟨t173, t172, t171⟩)
+  let t244 := (V3.length tmin tmax sqrt ⟨t173, t172, t171⟩)
   let t245 := (t205 - v1.z)
   let t246 := (t206 - v1.y)
   let t247 := (t207 - v1.x)
@@ -300,7 +300,7 @@ def LineAlgo.closestVertex {α : Type} [Add α] [Sub α] [Mul α] [LT α] [Decid
       ⟨v0.x, v0.y, v0.z⟩
 
 /-- extracted from the C++ template at T = Sym; 4 path(s) -/
-def LineAlgo.rotatePoint {α : Type} [Add α] [Sub α] [Mul α] [Div α] [Neg α] [LT α] [LE α] [DecidableLT α] [DecidableLE α] [DecidableEq α] [OfNat α 0] [OfNat α 2] (tmin : α) (sqrt : α → α) (sin : α → α) (cos : α → α) (p : V3 α) (l : Line3 α) (angle : α) : (V3 α) :=
+def LineAlgo.rotatePoint {α : Type} [Add α] [Sub α] [Mul α] [Div α] [Neg α] [LT α] [LE α] [DecidableLT α] [DecidableLE α] [DecidableEq α] [OfNat α 0] [OfNat α 2] (tmin : α) (tmax : α) (sqrt : α → α) (sin : α → α) (cos : α → α) (p : V3 α) (l : Line3 α) (angle : α) : (V3 α) :=
   let t37 := ((((p.x - l.pos.x) * l.dir.x) + ((p.y - l.pos.y) * l.dir.y)) + ((p.z - l.pos.z) * l.dir.z))
   let t41 := ((t37 * l.dir.z) + l.pos.z)
   let t42 := ((t37 * l.dir.y) + l.pos.y)
@@ -308,11 +308,11 @@ def LineAlgo.rotatePoint {α : Type} [Add α] [Sub α] [Mul α] [Div α] [Neg α
   let t429 := (p.z - t41)
   let t430 := (p.y - t42)
   let t431 := (p.x - t43)
-  let t432 := (V3.length tmin sqrt ⟨t431, t430, t429⟩)
+  let t432 := (V3.length tmin tmax sqrt ⟨t431, t430, t429⟩)
   let t435 := ((t431 * l.dir.y) - (t430 * l.dir.x))
   let t438 := ((t429 * l.dir.x) - (t431 * l.dir.z))
   let t441 := ((t430 * l.dir.z) - (t429 * l.dir.y))
-  let t442 := (V3.length tmin sqrt ⟨t441, t438, t435⟩)
+  let t442 := (V3.length tmin tmax sqrt ⟨t441, t438, t435⟩)
   let t443 := (cos angle)
   let t444 := (sin angle)
   let t457 := (t41 + ((t429 * t432) * t443))
@@ -324,7 +324,7 @@ def LineAlgo.rotatePoint {α : Type} [Add α] [Sub α] [Mul α] [Div α] [Neg α
   let t480 := ((t475 * l.dir.y) - (t476 * l.dir.x))
   let t483 := ((t477 * l.dir.x) - (t475 * l.dir.z))
   let t486 := ((t476 * l.dir.z) - (t477 * l.dir.y))
-  let t487 := (V3.length tmin sqrt ⟨t486, t483, t480⟩)
+  let t487 := (V3.length tmin tmax sqrt ⟨t486, t483, t480⟩)
   let t500 := (t41 + ((t477 * t432) * t443))
   let t501 := (t42 + ((t476 * t432) * t443))
   let t502 := (t43 + ((t475 * t432) * t443))
@@ -340,8 +340,8 @@ def LineAlgo.rotatePoint {α : Type} [Add α] [Sub α] [Mul α] [Div α] [Neg α
       ⟨(t502 + (((t486 / t487) * t432) * t444)), (t501 + (((t483 / t487) * t432) * t444)), (t500 + (((t480 / t487) * t432) * t444))⟩
 
 /-- extracted from the C++ template at T = Sym; 2 path(s) -/
-def VecAlgo2.project {α : Type} [Add α] [Mul α] [Div α] [Neg α] [LT α] [DecidableLT α] [DecidableEq α] [OfNat α 0] [OfNat α 2] (tmin : α) (sqrt : α → α) (s : V2 α) (t : V2 α) : (V2 α) :=
-  let t522 := (V2.length tmin sqrt ⟨s.x, s.y⟩)
+def VecAlgo2.project {α : Type} [Add α] [Mul α] [Div α] [Neg α] [LT α] [DecidableLT α] [DecidableEq α] [OfNat α 0] [OfNat α 2] (tmin : α) (tmax : α) (sqrt : α → α) (s : V2 α) (t : V2 α) : (V2 α) :=
+  let t522 := (V2.length tmin tmax sqrt ⟨s.x, s.y⟩)
   let t526 := ((0 : α) * (((0 : α) * t.x) + ((0 : α) * t.y)))
   let t527 := (s.y / t522)
   let t528 := (s.x / t522)
@@ -352,8 +352,8 @@ def VecAlgo2.project {α : Type} [Add α] [Mul α] [Div α] [Neg α] [LT α] [De
     ⟨(t528 * t531), (t527 * t531)⟩
 
 /-- extracted from the C++ template at T = Sym; 2 path(s) -/
-def VecAlgo2.orthogonal {α : Type} [Add α] [Sub α] [Mul α] [Div α] [Neg α] [LT α] [DecidableLT α] [DecidableEq α] [OfNat α 0] [OfNat α 2] (tmin : α) (sqrt : α → α) (s : V2 α) (t : V2 α) : (V2 α) :=
-  let t522 := (V2.length tmin sqrt ⟨s.x, s.y⟩)
+def VecAlgo2.orthogonal {α : Type} [Add α] [Sub α] [Mul α] [Div α] [Neg α] [LT α] [DecidableLT α] [DecidableEq α] [OfNat α 0] [OfNat α 2] (tmin : α) (tmax : α) (sqrt : α → α) (s : V2 α) (t : V2 α) : (V2 α) :=
+  let t522 := (V2.length tmin tmax sqrt ⟨s.x, s.y⟩)
   let t526 := ((0 : α) * (((0 : α) * t.x) + ((0 : α) * t.y)))
   let t527 := (s.y / t522)
   let t528 := (s.x / t522)
@@ -364,8 +364,8 @@ def VecAlgo2.orthogonal {α : Type} [Add α] [Sub α] [Mul α] [Div α] [Neg α]
     ⟨(t.x - (t528 * t531)), (t.y - (t527 * t531))⟩
 
 /-- extracted from the C++ template at T = Sym; 2 path(s) -/
-def VecAlgo2.reflect {α : Type} [Add α] [Sub α] [Mul α] [Div α] [Neg α] [LT α] [DecidableLT α] [DecidableEq α] [OfNat α 0] [OfNat α 2] (tmin : α) (sqrt : α → α) (s : V2 α) (t : V2 α) : (V2 α) :=
-  let t538 := (V2.length tmin sqrt ⟨t.x, t.y⟩)
+def VecAlgo2.reflect {α : Type} [Add α] [Sub α] [Mul α] [Div α] [Neg α] [LT α] [DecidableLT α] [DecidableEq α] [OfNat α 0] [OfNat α 2] (tmin : α) (tmax : α) (sqrt : α → α) (s : V2 α) (t : V2 α) : (V2 α) :=
+  let t538 := (V2.length tmin tmax sqrt ⟨t.x, t.y⟩)
   let t542 := ((0 : α) * (((0 : α) * s.x) + ((0 : α) * s.y)))
   let t550 := (t.y / t538)
   let t551 := (t.x / t538)
@@ -398,8 +398,8 @@ def VecAlgo2.closestVertex {α : Type} [Add α] [Sub α] [Mul α] [LT α] [Decid
       ⟨v0.x, v0.y⟩
 
 /-- extracted from the C++ template at T = Sym; 2 path(s) -/
-def VecAlgo3.project {α : Type} [Add α] [Mul α] [Div α] [Neg α] [LT α] [LE α] [DecidableLT α] [DecidableLE α] [DecidableEq α] [OfNat α 0] [OfNat α 2] (tmin : α) (sqrt : α → α) (s : V3 α) (t : V3 α) : (V3 α) :=
-  let t580 := (V3.length tmin sqrt ⟨s.x, s.y, s.z⟩)
+def VecAlgo3.project {α : Type} [Add α] [Mul α] [Div α] [Neg α] [LT α] [LE α] [DecidableLT α] [DecidableLE α] [DecidableEq α] [OfNat α 0] [OfNat α 2] (tmin : α) (tmax : α) (sqrt : α → α) (s : V3 α) (t : V3 α) : (V3 α) :=
+  let t580 := (V3.length tmin tmax sqrt ⟨s.x, s.y, s.z⟩)
   let t583 := ((0 : α) * ((((0 : α) * t.x) + ((0 : α) * t.y)) + ((0 : α) * t.z)))
   let t584 := (s.z / t580)
   let t585 := (s.y / t580)
@@ -411,8 +411,8 @@ def VecAlgo3.project {α : Type} [Add α] [Mul α] [Div α] [Neg α] [LT α] [LE
     ⟨(t586 * t591), (t585 * t591), (t584 * t591)⟩
 
 /-- extracted from the C++ template at T = Sym; 2 path(s) -/
-def VecAlgo3.orthogonal {α : Type} [Add α] [Sub α] [Mul α] [Div α] [Neg α] [LT α] [LE α] [DecidableLT α] [DecidableLE α] [DecidableEq α] [OfNat α 0] [OfNat α 2] (tmin : α) (sqrt : α → α) (s : V3 α) (t : V3 α) : (V3 α) :=
-  let t580 := (V3.length tmin sqrt ⟨s.x, s.y, s.z⟩)
+def VecAlgo3.orthogonal {α : Type} [Add α] [Sub α] [Mul α] [Div α] [Neg α] [LT α] [LE α] [DecidableLT α] [DecidableLE α] [DecidableEq α] [OfNat α 0] [OfNat α 2] (tmin : α) (tmax : α) (sqrt : α → α) (s : V3 α) (t : V3 α) : (V3 α) :=
+  let t580 := (V3.length tmin tmax sqrt ⟨s.x, s.y, s.z⟩)
   let t583 := ((0 : α) * ((((0 : α) * t.x) + ((0 : α) * t.y)) + ((0 : α) * t.z)))
   let t584 := (s.z / t580)
   let t585 := (s.y / t580)
@@ -424,8 +424,8 @@ def VecAlgo3.orthogonal {α : Type} [Add α] [Sub α] [Mul α] [Div α] [Neg α]
     ⟨(t.x - (t586 * t591)), (t.y - (t585 * t591)), (t.z - (t584 * t591))⟩
 
 /-- extracted from the C++ template at T = Sym; 2 path(s) -/
-def VecAlgo3.reflect {α : Type} [Add α] [Sub α] [Mul α] [Div α] [Neg α] [LT α] [LE α] [DecidableLT α] [DecidableLE α] [DecidableEq α] [OfNat α 0] [OfNat α 2] (tmin : α) (sqrt : α → α) (s : V3 α) (t : V3 α) : (V3 α) :=
-  let t601 := (V3.length tmin sqrt ⟨t.x, t.y, t.z⟩)
+def VecAlgo3.reflect {α : Type} [Add α] [Sub α] [Mul α] [Div α] [Neg α] [LT α] [LE α] [DecidableLT α] [DecidableLE α] [DecidableEq α] [OfNat α 0] [OfNat α 2] (tmin : α) (tmax : α) (sqrt : α → α) (s : V3 α) (t : V3 α) : (V3 α) :=
+  let t601 := (V3.length tmin tmax sqrt ⟨t.x, t.y, t.z⟩)
   let t604 := ((0 : α) * ((((0 : α) * s.x) + ((0 : α) * s.y)) + ((0 : α) * s.z)))
   let t614 := (t.z / t601)
   let t615 := (t.y / t601)
@@ -462,8 +462,8 @@ def VecAlgo3.closestVertex {α : Type} [Add α] [Sub α] [Mul α] [LT α] [Decid
       ⟨v0.x, v0.y, v0.z⟩
 
 /-- extracted from the C++ template at T = Sym; 2 path(s) -/
-def VecAlgo4.project {α : Type} [Add α] [Mul α] [Div α] [Neg α] [LT α] [LE α] [DecidableLT α] [DecidableLE α] [DecidableEq α] [OfNat α 0] [OfNat α 2] (tmin : α) (sqrt : α → α) (s : V4 α) (t : V4 α) : (V4 α) :=
-  let t645 := (V4.length tmin sqrt ⟨s.x, s.y, s.z, s.w⟩)
+def VecAlgo4.project {α : Type} [Add α] [Mul α] [Div α] [Neg α] [LT α] [LE α] [DecidableLT α] [DecidableLE α] [DecidableEq α] [OfNat α 0] [OfNat α 2] (tmin : α) (tmax : α) (sqrt : α → α) (s : V4 α) (t : V4 α) : (V4 α) :=
+  let t645 := (V4.length tmin tmax sqrt ⟨s.x, s.y, s.z, s.w⟩)
   let t648 := ((0 : α) * (((((0 : α) * t.x) + ((0 : α) * t.y)) + ((0 : α) * t.z)) + ((0 : α) * t.w)))
   let t649 := (s.w / t645)
   let t650 := (s.z / t645)
@@ -476,8 +476,8 @@ def VecAlgo4.project {α : Type} [Add α] [Mul α] [Div α] [Neg α] [LT α] [LE
     ⟨(t652 * t659), (t651 * t659), (t650 * t659), (t649 * t659)⟩
 
 /-- extracted from the C++ template at T = Sym; 2 path(s) -/
-def VecAlgo4.orthogonal {α : Type} [Add α] [Sub α] [Mul α] [Div α] [Neg α] [LT α] [LE α] [DecidableLT α] [DecidableLE α] [DecidableEq α] [OfNat α 0] [OfNat α 2] (tmin : α) (sqrt : α → α) (s : V4 α) (t : V4 α) : (V4 α) :=
-  let t645 := (V4.length tmin sqrt ⟨s.x, s.y, s.z, s.w⟩)
+def VecAlgo4.orthogonal {α : Type} [Add α] [Sub α] [Mul α] [Div α] [Neg α] [LT α] [LE α] [DecidableLT α] [DecidableLE α] [DecidableEq α] [OfNat α 0] [OfNat α 2] (tmin : α) (tmax : α) (sqrt : α → α) (s : V4 α) (t : V4 α) : (V4 α) :=
+  let t645 := (V4.length tmin tmax sqrt ⟨s.x, s.y, s.z, s.w⟩)
   let t648 := ((0 : α) * (((((0 : α) * t.x) + ((0 : α) * t.y)) + ((0 : α) * t.z)) + ((0 : α) * t.w)))
   let t649 := (s.w / t645)
   let t650 := (s.z / t645)
@@ -490,8 +490,8 @@ def VecAlgo4.orthogonal {α : Type} [Add α] [Sub α] [Mul α] [Div α] [Neg α]
     ⟨(t.x - (t652 * t659)), (t.y - (t651 * t659)), (t.z - (t650 * t659)), (t.w - (t649 * t659))⟩
 
 /-- extracted from the C++ template at T = Sym; 2 path(s) -/
-def VecAlgo4.reflect {α : Type} [Add α] [Sub α] [Mul α] [Div α] [Neg α] [LT α] [LE α] [DecidableLT α] [DecidableLE α] [DecidableEq α] [OfNat α 0] [OfNat α 2] (tmin : α) (sqrt : α → α) (s : V4 α) (t : V4 α) : (V4 α) :=
-  let t672 := (V4.length tmin sqrt ⟨t.x, t.y, t.z, t.w⟩)
+def VecAlgo4.reflect {α : Type} [Add α] [Sub α] [Mul α] [Div α] [Neg α] [LT α] [LE α] [DecidableLT α] [DecidableLE α] [DecidableEq α] [OfNat α 0] [OfNat α 2] (tmin : α) (tmax : α) (sqrt : α → α) (s : V4 α) (t : V4 α) : (V4 α) :=
+  let t672 := (V4.length tmin tmax sqrt ⟨t.x, t.y, t.z, t.w⟩)
   let t675 := ((0 : α) * (((((0 : α) * s.x) + ((0 : α) * s.y)) + ((0 : α) * s.z)) + ((0 : α) * s.w)))
   let t688 := (t.w / t672)
   let t689 := (t.z / t672)
